@@ -288,7 +288,57 @@ def main(tier, seed):
             rep.violation('node-values-changed:kernel' + (':buffers' if meta['buffers'] else ''), 'a reverse sweep changed forward values stored in the graph (%s)' % kname, payload)
         elif not (close(first, want) and close(second, want)):
             rep.violation('history:reverse:kernel', 'repeated reverse sweeps after one forward evaluation differ from the sweep on a fresh graph (%s)' % kname, payload)
+    mixed_kind_section(rep, ap, rng, tier)
     return rep.finish()
+
+
+def mixed_kind_section(rep, ap, rng, tier):
+    """graphs with two independents evaluated and swept several times while the KIND of the inputs changes between evaluations (one input a
+    plain array in one evaluation, a polynomial in the next, and back): every sweep equals the sweep of a freshly recorded graph"""
+    def rec(lazy):
+        # buffer-free (a buffer allocated from a plain template cannot hold polynomials); nodes that depend on one input only, products with
+        # the plain operand on either side
+        cg_ = ap.CGraph()
+        fa = ap.Function(progs.rand_point(rng, 3) + 0.125)
+        pre = fa * fa * fa if lazy else None
+        fb = ap.Function(progs.rand_point(rng, 3) + 0.125)
+        pre = fa * fa * fa if pre is None else pre
+        y = ap.sum(ap.sin(fa * fb) + fb * fb + fb * fa * fa + pre)
+        cg_.trace_off(); cg_.independentFunctionList = [fa, fb]; cg_.dependentFunctionList = [y]
+        return cg_
+    for it in range(10 if tier == 'quick' else 120):
+        lazy = bool(it & 1)
+        cg = rec(lazy)
+        D, P = rng.randint(1, 3), rng.randint(1, 2)
+        hist = []
+        for step in range(rng.randint(2, 5)):
+            kinds = rng.choice([('U', 'n'), ('n', 'U'), ('U', 'U'), ('U', 'U')])
+            a = progs.rand_utpm_data(rng, D, P, 3) + 0.125; b = progs.rand_utpm_data(rng, D, P, 3) + 0.125
+            ybar = progs.rand_utpm_data(rng, D, P, 1)[:, :, 0]
+            hist.append(''.join(kinds))
+            rep.count('mixed kinds', ''.join(kinds))
+            rep.case(('mixed-kind', it, step, tuple(hist), a.tobytes().hex()[:32]), step >= 1, sample=dict(check='input kinds change between sweeps', history=list(hist)))
+
+            def run(g):
+                args = [ap.UTPM(a.copy()) if kinds[0] == 'U' else a[0, 0].copy(), ap.UTPM(b.copy()) if kinds[1] == 'U' else b[0, 0].copy()]
+                g.pushforward(args)
+                g.pullback([ap.UTPM(ybar.copy())])
+                out = []
+                for f_, k_ in zip(g.independentFunctionList, kinds):
+                    out.append(numpy.array(f_.xbar.data, copy=True) if k_ == 'U' else None)
+                return numpy.array(g.dependentFunctionList[0].x.data, copy=True), out
+            try:
+                y1, xb1 = run(cg)
+                y2, xb2 = run(rec(lazy))
+            except Exception as e:
+                rep.violation('history:mixed-kinds:exception', 'two independents, input kinds per evaluation %s: evaluation or reverse sweep raises %s' % (hist, str(e)[-200:]),
+                              dict(kind='mixed-kind', history=list(hist), a=a.tolist(), b=b.tolist(), lazy=lazy, exc=repr(e)[-800:])); break
+            ok = close(y1, y2) and all((u is None and w is None) or (u is not None and w is not None and close(u, w)) for u, w in zip(xb1, xb2))
+            if not ok:
+                rep.violation('history:mixed-kinds', 'two independents, input kinds per evaluation %s: forward value or adjoints of the last sweep differ from a freshly recorded graph' % hist,
+                              dict(kind='mixed-kind', history=list(hist), a=a.tolist(), b=b.tolist(), ybar=ybar.tolist(), lazy=lazy))
+                break
+
 
 
 def replay(path):
